@@ -99,3 +99,27 @@ Qed.
 Example setup_fuel_run : run (boot 0 full) <> GFuel /\
   go_vmm_setupPDTForKernel 3 (mk_go_vmm_world [] (boot 0 full)) OFF K.o_kactivate K.o_kinit K.o_kmap M.o_alloc K.o_translate (K.nonempty secs) = GFuel.
 Proof. split; [vm_compute; discriminate | vm_compute; reflexivity]. Qed.
+
+(** ---- [audit A] a table shaped like a real kernel's: hypotheses discharged together.  Note the over-demand: [K.fuel_ok]
+    asks fuel above the page count of EVERY non-empty section, also of the non-alloc ones (address 0 < kernel offset) whose
+    page loop never runs - fuel 64 fails the hypothesis for the 64-page section at address 0 although the function itself
+    finishes with fuel 8.  Satisfiable (fuel is a nat), hence not vacuous, but stronger than needed. ---- *)
+(* shape of a real kernel ELF table: null entry, alloc sections at/above the offset, and NON-ALLOC sections
+   (.symtab/.strtab/.debug: address 0, large size) that the closure skips at `secAddress < kernelPageOffset` *)
+Definition real_secs : list section :=
+  (0, 0, 0) :: secs ++ [(0, 0, 0x1c000); (0, 0, 0x40000); (0, 0, 0x11)].
+
+Example C05_setup_kernel_is_translation_real_input :
+  OFF < two64 /\ last (boot 0 full) < two64 /\ Forall K.sec_ok real_secs /\ K.fuel_ok 70 real_secs (boot 0 full)
+  /\ ~ K.fuel_ok 64 real_secs (boot 0 full)
+  /\ (match go_vmm_setupPDTForKernel 8 (mk_go_vmm_world [] (boot 0 full)) OFF K.o_kactivate K.o_kinit K.o_kmap M.o_alloc K.o_translate (K.nonempty real_secs)
+      with GOk (w, e) => Some (e, length (f_world_trace w)) | _ => None end) = Some (None, 7%nat).
+Proof.
+  split; [reflexivity|]. split; [reflexivity|]. split; [repeat constructor; reflexivity|].
+  split; [split; [vm_compute; repeat constructor; vm_compute; lia | vm_compute; lia]|].
+  split.
+  - intros [H _]. vm_compute in H.
+    repeat match goal with H : Forall _ (_ :: _) |- _ => inversion H; clear H; subst end.
+    repeat match goal with H : (N.to_nat _ < _)%nat |- _ => vm_compute in H end. lia.
+  - vm_compute. reflexivity.
+Qed.
